@@ -224,10 +224,13 @@ IntGate(s, r) ==
             /\ p.icount = s.icount
             /\ Privileged(p.psr) /\ Prio(p.psr) = mx /\ CC(p.psr) = 2
             /\ \E q \in reqs : q[2] = mx /\ p.pc = Rd(s, 256 + q[1]).v
-            /\ \E q \in SeqSet(p.memdiff) \cup { <<a, Rd(s, a).v, Rd(s, a).m>> : a \in {Wrap(r6), Wrap(r6 + 1)} } :
-                  q[1] = Wrap(r6) /\ q[2] = s.pc
-            /\ \E q \in SeqSet(p.memdiff) \cup { <<a, Rd(s, a).v, Rd(s, a).m>> : a \in {Wrap(r6), Wrap(r6 + 1)} } :
-                  q[1] = Wrap(r6 + 1) /\ q[2] = s.psr
+            \* (a stack slot inside the I/O page is a device port, not memory: nothing to find there)
+            /\ Wrap(r6) < IO_START =>
+                 \E q \in SeqSet(p.memdiff) \cup { <<a, Rd(s, a).v, Rd(s, a).m>> : a \in {Wrap(r6), Wrap(r6 + 1)} } :
+                    q[1] = Wrap(r6) /\ q[2] = s.pc
+            /\ Wrap(r6 + 1) < IO_START =>
+                 \E q \in SeqSet(p.memdiff) \cup { <<a, Rd(s, a).v, Rd(s, a).m>> : a \in {Wrap(r6), Wrap(r6 + 1)} } :
+                    q[1] = Wrap(r6 + 1) /\ q[2] = s.psr
      ELSE \* not taken: the step is an ordinary instruction step; the priority is not raised by it
           (r.res = "ok" /\ p.icount = s.icount) => (p.pc = s.pc \/ s.flags.real)
 
